@@ -36,7 +36,7 @@ def battery(seed, n):
 
     rng = random.Random("battery/%d" % seed)
     items = []
-    kinds = ["tree", "doc", "doc", "textdoc", "headc", "jsx", "css", "classes", "attrs", "typed_attrs", "jsonmode", "retry"]
+    kinds = ["tree", "doc", "doc", "textdoc", "headc", "jsx", "css", "classes", "attrs", "typed_attrs", "jsonmode", "retry", "shared"]
     for i in range(n):
         k = kinds[i % len(kinds)]
         if k == "tree":
@@ -79,6 +79,9 @@ def battery(seed, n):
             # a rendering that fails inside a nested tagify(), then the same tree rendered again
             inner = {"k": "tf", "as": "flaky", "ret": "list", "c": [{"k": "text", "s": "f%d" % i}, gen.TAG("b", ws=False)]}
             items.append((k, gen.TAG("div", gen.TAG("span", {"k": "text", "s": "p"}, inner, ws=False), gen.TAG("p", {"k": "text", "s": "q"}))))
+        elif k == "shared":
+            items.append((k, {"kids": [gen.rand_tree(rng, depth=1), {"k": "text", "s": "sh%d" % i}][: rng.randint(1, 2)],
+                              "attrs": [["class_", {"t": "str", "s": "c"}], ["id", {"t": "str", "s": "i"}]][: rng.randint(0, 2)], "lone": rng.random() < 0.5}))
         elif k == "jsonmode":
             # str() in JSON dependency mode; dependencies across items share name and version but differ in content
             deps = [{"k": "dep", "name": rng.choice(["jq", "bs"]), "version": rng.choice(["1.0", "2.0"]),
@@ -110,12 +113,28 @@ def _run_item(kind, r):
     from ..attrprog import run_case as run_attr
 
     if kind == "tree":
-        return {"html": _d(str(gen.build(r)))}
+        t = gen.build(r)
+        first = str(t)
+        return {"html": _d(first), "same_when_rendered_again": str(t) == first and t.get_html_string() == first}
     if kind == "doc":
         content = c11.strip_marks(r["content"])
         doc = ht.HTMLDocument(*[gen.build(c) for c in content], **{k: gen.build_attr_value(v) for k, v in r["kw"]})
         out = doc.render(lib_prefix=r["lib_prefix"], include_version=r["include_version"])
-        return {"html": _d(out["html"]), "deps": [d.name + "@" + str(d.version) for d in out["dependencies"]]}
+        # the very same document object rendered again: what was rendered before must not matter
+        again = doc.render(lib_prefix=r["lib_prefix"], include_version=r["include_version"])
+        return {"html": _d(out["html"]), "deps": [d.name + "@" + str(d.version) for d in out["dependencies"]],
+                "same_when_rendered_again": again["html"] == out["html"]}
+    if kind == "shared":
+        # two tags built from the same child list / attribute map; changing one must not change what the other renders
+        shared_kids = ht.TagList(*[gen.build(c) for c in r["kids"]])
+        shared_attrs = ht.Tag("x", **{n: gen.build_attr_value(v) for n, v in r["attrs"]}).attrs
+        a = ht.div(shared_kids) if r["lone"] else ht.div(shared_attrs, shared_kids, "z")
+        b = ht.tags.section(shared_kids) if r["lone"] else ht.tags.section(shared_attrs, shared_kids)
+        before = (str(b), str(shared_kids))
+        a.append("appended", ht.span("s"))
+        a.add_class("added")
+        a.attrs["data-a"] = "1"
+        return {"html": _d(str(a) + str(b)), "same_when_rendered_again": (str(b), str(shared_kids)) == before}
     if kind == "textdoc":
         deps = [gen.build(x) for x in r["deps"]]
         sers = [d.serialize_to_script_json(indent=2).get_html_string() for d in deps]
@@ -244,6 +263,15 @@ def run(ctx):
                 v = json.dumps(o[order][str(i)], sort_keys=True)
                 seen.setdefault(v, []).append((str(hs), order))
                 ctx.count("monitor.digest_comparisons")
+        for o, hs in zip(outs, hashseeds):
+            for order in ("forward", "reversed", "shuffled", "interleaved"):
+                if o[order][str(i)].get("same_when_rendered_again") is False:
+                    ctx.violation("output-depends-on-history", "battery item %d (%s): the same object gives a different result when rendered again / "
+                                  "after an unrelated object was changed" % (i, kind), {"item": i, "kind": kind, "recipe": recipe})
+                    break
+            else:
+                continue
+            break
         ctx.case((kind, recipe), nontrivial=kind in ("doc", "textdoc", "headc", "attrs", "classes", "css", "jsx", "typed_attrs", "jsonmode", "retry"))
         ctx.state("battery_kinds", kind)
         if len(seen) > 1:
@@ -267,7 +295,7 @@ def run(ctx):
     by_name, by_html = {}, {}
     corpus = 0
     for _ in range(300 if not ctx.thorough else 3000):
-        p = [gen.TAG(crng.choice(["title", "meta", "link", "style"]), {"k": "text", "s": crng.choice(["a", "b", "a ", "A", "é", "<x>", ""])},
+        p = [gen.TAG(crng.choice(["title", "meta", "link", "style"]), {"k": "text", "s": crng.choice(["a", "b", "a ", "A", "é", "e\u0301", "Å", "A\u030a", "ﬁ", "fi", "<x>", ""])},
                      attrs=[["name", {"t": "str", "s": crng.choice(["n", "m", "n "])}]][: crng.randint(0, 1)], ws=crng.random() < 0.5)
              for _ in range(crng.randint(0, 2))]
         if crng.random() < 0.3:
